@@ -114,18 +114,27 @@ Section Trav1.
     eapply c_tr; [exact L12|apply c_inv_update; exact N].
   Qed.
 
-  Lemma c_kubectl_apply s l : cstep s (fst (kubectl_apply sc s l)).
+  Lemma c_ssa_patch l s n : cstep s (fst (ssa_patch sc s l n)).
   Proof.
-    unfold kubectl_apply. cbv zeta. destruct (ssa_mode sc).
-    - destruct (faulted sc _); cbn [fst]; [cs|].
-      destruct (find_obj _ _); destruct (match o_dry (sc_opts sc) with DServer => true | _ => false end); cbn [fst]; cs;
-        apply Cn_put.
-    - pose proof (c_get_obj s (l_id l)) as G. destruct (get_obj sc s (l_id l)) as [s1 g]. cbn [fst] in G.
-      destruct g; cbn [fst]; try exact G.
-      + destruct (is_dry _); cbn [fst]; [exact G|]. destruct (faulted sc _); cbn [fst]; cs. apply Cn_put.
-      + destruct (negb (patch_needed c l)); cbn [fst]; [exact G|].
-        destruct (is_dry _); cbn [fst]; [exact G|]. destruct (faulted sc _); cbn [fst]; cs. apply Cn_put.
+    unfold ssa_patch. cbv zeta.
+    destruct (faulted sc (FStream _ _)); cbn [fst]; [cs|].
+    destruct (faulted sc (FApply _)); cbn [fst]; [cs|].
+    destruct (find_obj _ _); destruct (match o_dry (sc_opts sc) with DServer => true | _ => false end); cbn [fst]; cs;
+      apply Cn_put.
   Qed.
+
+  Lemma c_csa_apply l s : cstep s (fst (csa_apply sc s l)).
+  Proof.
+    unfold csa_apply. cbv zeta.
+    pose proof (c_get_obj s (l_id l)) as G. destruct (get_obj sc s (l_id l)) as [s1 g]. cbn [fst] in G.
+    destruct g; cbn [fst]; try exact G.
+    + destruct (is_dry _); cbn [fst]; [exact G|]. destruct (faulted sc _); cbn [fst]; cs. apply Cn_put.
+    + destruct (negb (patch_needed c l)); cbn [fst]; [exact G|].
+      destruct (is_dry _); cbn [fst]; [exact G|]. destruct (faulted sc _); cbn [fst]; cs. apply Cn_put.
+  Qed.
+
+  Lemma c_kubectl_apply s l : cstep s (fst (kubectl_apply sc s l)).
+  Proof. exact (kubectl_apply_step sc l (fun a b => cstep a b) c_tr (c_ssa_patch l) (c_csa_apply l) s). Qed.
 
   Lemma c_apply_one pl g s p : cstep s (apply_one sc pl g s p).
   Proof.
